@@ -15,42 +15,43 @@ Verdict(rid, prop, v, detail) == PrintT("VERDICT|" \o rid \o "|" \o prop \o "|" 
 D6 == "D6-compound-assignment-target-evaluated-twice"
 D10 == "D10-temporary-shared-across-activations"
 D20 == "D20-apply-extra-arguments-handed-to-hook"
+D7b == "D7b-nonconstant-sum-operand-omitted"
 
 Judge(r) ==
   \E why \in {Why(r.inlog, r.outlog, r.inout, r.outout, r.primfault)} :
-  \E hookwhys \in {{HookWhyDyn(r.hooks[i], r.outlog) : i \in 1..Len(r.hooks)} \ {""}} :
+  \* with a spread this-argument (m.call(...s, ..)) receiver and arguments cannot be told apart statically:
+  \* the call-event comparison of method hooks is not applied to such programs
+  \E hookwhys \in {{HookWhyDyn(IF r.spreadthis /\ r.hooks[i].check = "log" THEN [r.hooks[i] EXCEPT !.check = "skip"] ELSE r.hooks[i], r.outlog)
+                      : i \in 1..Len(r.hooks)} \ {""}} :
   LET sdev == {r.statdevs[i] : i \in 1..Len(r.statdevs)}
       nontrivial == Len(r.inlog) > 0
-      \* permitted for <path>.m.call|apply(this, ..): reading the path (and .call/.apply on it) vs.
-      \* evaluating the this-argument and arguments.  Same effects in another order; or, when the run
-      \* throws in between, one log is a prefix of the other
-      callReadVsArgs == /\ r.protocall /\ r.inout = r.outout
-                        /\ \/ BagEq(Strip(r.inlog), Strip(r.outlog))
-                           \/ /\ r.inout.k = "throw"
-                              /\ \/ IsPrefixOf(Strip(r.inlog), Strip(r.outlog))
-                                 \/ IsPrefixOf(Strip(r.outlog), Strip(r.inlog))
+      \* (programs whose X.….m.call|apply(..) callee path is observable, reassignable or absent are not
+      \* compared dynamically at all -- see harness/py/dyn_pipeline.py comparable_dynamically)
+      callReadVsArgs == FALSE
   IN
   \* ---- C01
   /\ IF why = "" \/ callReadVsArgs THEN Verdict(r.rid, "C01", IF nontrivial THEN "ok" ELSE "ok0", r.sid)
      ELSE IF D6 \in sdev THEN Verdict(r.rid, "C01", "dev", {D6})
+     ELSE IF D7b \in sdev THEN Verdict(r.rid, "C01", "dev", {D7b})
      ELSE IF D10 \in sdev /\ r.reenter THEN Verdict(r.rid, "C01", "dev", {D10})
      ELSE Verdict(r.rid, "C01", "reject", <<r.sid, why>>)
   \* ---- C03 (dynamic half)
   /\ IF hookwhys # {} /\ D20 \in sdev THEN Verdict(r.rid, "C03", "dev", {D20})
+     ELSE IF hookwhys # {} /\ D7b \in sdev THEN Verdict(r.rid, "C03", "dev", {D7b})
      ELSE IF hookwhys # {} THEN Verdict(r.rid, "C03", "reject", <<r.sid, hookwhys>>)
      ELSE Verdict(r.rid, "C03", IF \E i \in 1..Len(r.hooks) : r.hooks[i].check \in {"ok", "log"} THEN "ok" ELSE "ok0", Len(r.hooks))
   \* ---- C06 (dynamic half): re-entrant activations must not disturb each other's temporaries
   /\ IF ~r.reenter THEN Verdict(r.rid, "C06", "na", r.sid)
      ELSE IF why = "" \/ callReadVsArgs THEN Verdict(r.rid, "C06", IF Len(r.hooks) > 0 THEN "ok" ELSE "ok0", r.sid)
      ELSE IF D10 \in sdev THEN Verdict(r.rid, "C06", "dev", {D10})
-     ELSE IF D6 \in sdev THEN Verdict(r.rid, "C06", "na", "D6, see C01/C02")
+     ELSE IF D6 \in sdev \/ D7b \in sdev THEN Verdict(r.rid, "C06", "na", "D6 / D7b, see C01")
      ELSE Verdict(r.rid, "C06", "reject", <<r.sid, why>>)
   \* ---- C05 (dynamic half): the file's own prologue provides every configured hook
   /\ IF ~r.absent THEN Verdict(r.rid, "C05", "na", r.sid)
      ELSE IF ~r.ns_exists THEN Verdict(r.rid, "C05", "reject", "the prologue did not install the hook namespace")
      ELSE IF {r.ns_keys[i] : i \in 1..Len(r.ns_keys)} # {r.alldsts[i] : i \in 1..Len(r.alldsts)}
           THEN Verdict(r.rid, "C05", "reject", <<"prologue defines", r.ns_keys, "configured", r.alldsts>>)
-     ELSE IF why # "" /\ ~callReadVsArgs /\ ~(D6 \in sdev) /\ ~(D10 \in sdev /\ r.reenter)
+     ELSE IF why # "" /\ ~callReadVsArgs /\ ~(D6 \in sdev) /\ ~(D7b \in sdev) /\ ~(D10 \in sdev /\ r.reenter)
           THEN Verdict(r.rid, "C05", "reject", <<"with the file's own pass-through hooks", why>>)
      ELSE Verdict(r.rid, "C05", "ok", Len(r.ns_keys))
 
